@@ -32,7 +32,8 @@ import Influx.Proto
 import Influx.Model.Reads
 
 namespace Influx.Spec.C21
-open Influx.Reads Influx.WindowAgg (Val Typ Pt)
+open Influx.Reads
+open Influx.WindowAgg (Val Typ Pt)
 
 abbrev Tags := List (String × String)
 
